@@ -3,7 +3,7 @@ from __future__ import annotations
 
 import ast
 
-from sa.loader import norm, norm1, walk_shallow, own_nodes, call_name, is_super_call
+from sa.loader import recv, norm, norm1, walk_shallow, own_nodes, call_name, is_super_call
 from sa.dataflow import node_defs
 from sa.typestate import check_language
 from sa.rulekit import (nodes_where, node_calls, node_roots, nodes_calling, return_nodes, own,
@@ -64,7 +64,7 @@ def run(ck):
         for s in sends:
             c = node_calls(s, 'send')[0]
             loops = [n for n in g.nodes if n.kind == 'for' and g.dominates(n, s)
-                     and norm(n.ast.target) == norm(c.func.value)]
+                     and norm(n.ast.target) == recv(c)]
             problems = []
             if not loops:
                 problems.append("not inside a loop over the event tuple")
@@ -213,7 +213,7 @@ def run(ck):
         g = ck.cfg(fid, 'M0')
         for s in nodes_calling(g, 'send'):
             c = node_calls(s, 'send')[0]
-            loops = [n for n in g.nodes if n.kind == 'for' and norm(n.ast.target) == norm(c.func.value)]
+            loops = [n for n in g.nodes if n.kind == 'for' and norm(n.ast.target) == recv(c)]
             n_loops += len(loops)
             ok = bool(loops) and all(norm(l.ast.iter) in ('self._output_events', 'self._every_output_events')
                                      for l in loops)
@@ -321,7 +321,7 @@ def _event_send_language(ck, rule):
         dc = node_calls(deliveries[0], 'event')[0]
         okd = [norm(a) for a in dc.args] == ['self._etype'] and len(dc.keywords) == 1 and \
             dc.keywords[0].arg is None and norm(dc.keywords[0].value) == 'data' and \
-            norm(dc.func.value) in ('dest', 'self._dest')
+            recv(dc) in ('dest', 'self._dest')
         src = (es.node.args.posonlyargs + es.node.args.args)[1].arg
         okd = okd and bool(srcw) and all(norm(s.ast.value) == f"{src}.name" for s in srcw)
     ck.ob(rule, f"{es.fid} :: delivered data", okd,
